@@ -622,6 +622,20 @@ class SBool:
     def __hash__(self):
         return 0
 
+    # bool is an int in Python: arithmetic on a symbolic bool forks to 0 / 1
+    def __int__(self):
+        return 1 if bool(self) else 0
+
+    __index__ = __int__
+
+    def __add__(self, o): return int(self) + o
+    def __radd__(self, o): return o + int(self)
+    def __sub__(self, o): return int(self) - o
+    def __rsub__(self, o): return o - int(self)
+    def __mul__(self, o): return int(self) * o
+    def __rmul__(self, o): return o * int(self)
+    def __neg__(self): return -int(self)
+
     def __repr__(self):
         return f'SBool({z3.simplify(self.e)})'
 
@@ -718,6 +732,10 @@ def _num(term, v):
     return z3.BitVecVal(v, term.size()) if z3.is_bv(term) else z3.IntVal(v)
 
 
+import re as _re
+_FILENAME_SPEC = _re.compile(r'^0\d+d$')
+
+
 class SInt:
     '''Mathematical integer (z3 Int) or real (z3 Real) term.'''
     __slots__ = ('e',)
@@ -808,6 +826,14 @@ class SInt:
             return SInt(z3.simplify(self.e / (1 << k)))
         raise Unencodable('symbolic shift amount')
 
+    # bit operations on a mathematical integer: its value is enumerated (solver-chosen) first
+    def __xor__(self, o): return int(self) ^ int(o)
+    __rxor__ = __xor__
+    def __and__(self, o): return int(self) & int(o)
+    __rand__ = __and__
+    def __or__(self, o): return int(self) | int(o)
+    __ror__ = __or__
+
     def __eq__(self, o):
         r = self._cmp(o, lambda a, b: a == b)
         return False if r is NotImplemented else r
@@ -841,7 +867,11 @@ class SInt:
         return SInt(z3.simplify(z3.Sum([z3.If(a >= (1 << k), 1, 0) for k in range(80)])))
 
     def __format__(self, spec):
-        return f'<sym:{spec}>'
+        # zero-padded decimal formats build file names (LogicalFile): the value is decided first;
+        # every other format only occurs in log / error texts, where a placeholder will do
+        if not _FILENAME_SPEC.match(spec):
+            return f'<sym:{spec}>'
+        return format(int(self), spec)
 
     def __repr__(self):
         return f'SInt({z3.simplify(self.e)})'
@@ -987,7 +1017,9 @@ class SWord:
         return SInt(z3.simplify(t))
 
     def __format__(self, spec):
-        return f'<sym:{spec}>'
+        if not _FILENAME_SPEC.match(spec):
+            return f'<sym:{spec}>'
+        return format(int(self), spec)
 
     def __repr__(self):
         return f'SWord{self.e.size()}({z3.simplify(self.e)})'
